@@ -32,6 +32,10 @@ PY
     exec ./bin/verifs "$@"
     ;;
 esac
+if [ "$1" = "C15" ]; then
+  go build -trimpath -o bin/verifa ./cmd/verifa || { echo "BUILD-ERROR: verifa" >&2; exit 2; }
+  exec ./bin/verifa "$@"
+fi
 if [ "$1" = "C19" ]; then
   # schedule exploration needs pub/transport.go rebuilt through the sync overlay; if the current
   # file cannot be rewritten or built that way the check runs without it (exhaustive:false)
